@@ -23,6 +23,10 @@ CLAIMED = {
             "c04_*: exact language of the redirect regex (source pinned to the compiled code), shape of accepted paths, re-serialisation escapes backslashes/controls for all URL records, and end to end for standalone mode: Canonical / Clean(Canonical) yields the fallback or a Location that the WHATWG model resolves to the request origin, for every parameter; AbsoluteValidator accepts only http(s) URLs whose Go host is the allowed domain or a dot-suffix of it and whose authority text is what a WHATWG parser reads (no backslash / # / userinfo confusion). 4.4 M strings (exhaustive up to length 5 over a 17-symbol alphabet, repo test strings, random) go through the real functions of all three modes and must agree with the model; every emitted non-fallback Location is resolved by Node 20 and must stay on the allowed origin.",
             "Trusts: Coq kernel; transliterations of Go's net/url, path, net/http tied by differential only; WHATWG model validated against Node only, IDNA as a parameter. SSO-server / SSO-proxy modes: proved up to authority agreement; the final origin step is covered by the differential + Node monitor, not by a theorem (partial). Handler call sites other than Canonical/Clean/LoginRelative are not driven.",
             "5/C04"),
+    "C09": ("Coq theorems on the symbolic crypter (ideal AEAD), nonce freshness, opacity of the login flow, data-key separation of the machine + exhaustive bit-flip / truncation / swap differential on the real cipher and stack",
+            "c09_*: round trip and only under the sealing key; whatever decrypts was sealed untouched under that key; every modification / truncation / foreign string is rejected under every key; no nonce repeats over any sequence of encryptions; the PKCE verifier reaches the browser only inside the login cookie (the URL carries S256 of it); a request obtains a session only through a store entry that the data key in its own cookie opens; garbage / absent / non-ticket cookies are answered sessionless. `wwh crypto` flips EVERY bit and takes every prefix / suffix of real XChaCha20-Poly1305 ciphertexts of 7 sizes (6 944 cases), checks 20 000 nonces, runs a swap matrix (other session, other cookie type, other deployment key, ticket with another data key, store blob of B under key A, bit flips) through the real stack on both stores and scans every cookie / store value for tokens, verifier and keys.",
+            "PARTIAL: 'tamper-evident for every bit' is a fact about XChaCha20-Poly1305 that Coq does not prove; it enters as the ideal-AEAD rule and is supported (not proved) by the exhaustive bit-flip run. legacy-cookie=true is outside the quantifier (recorded under C15).",
+            "5/C09"),
     "C12": ("Coq theorems (doublestar loop on the fragment = declarative Matches: soundness, completeness, termination; NeedsLogin, cache, handler) + exhaustive differential vs doublestar and the real router",
             "c12_*: glob_exec = Matches on the fragment (literals, *, **, /) with the exact side conditions (each refuted without), pattern normalisation of New, forwarded => some pattern matches the cleaned + trimmed path (c12_forwarded_matches_clean, the property's statement on the fixed code), dot-segment bypass refuted for the pre-fix code (fixed in /repo), memoisation = un-memoised decision for every call sequence, 302/401 + Location shape. 3 M pattern x name pairs (exhaustive over {a,b,/,.,*} to length 5) against doublestar.Match and path.Clean, NeedsLogin call sequences against the real AutoLogin, and ~7 k requests (dot segments, %2F, //, methods, fetch-metadata combinations) through the real router with a recording upstream.",
             "Trusts: Coq kernel; byte-wise model of doublestar (runes in Go; invalid UTF-8 excluded), fragment without ? [ ] { } \\ for the theorems (GlobFull.v covers them by differential only). Known finding: doublestar under-matches '<seg>*/**' against '<seg>' (fails closed).",
@@ -39,6 +43,10 @@ CLAIMED = {
             "c17_*: respondError is exactly a counter machine on the retry cookie; any maximal run of auto-retry 307s is <= 3 (pinned to the compiled constant) and persistent failures end in the error page; 429 is never retried; the retry cookie's Path covers the retry target for every failed request (c17_retry_cookie_returns_fixed; c17_retry_scope_refuted documents the pre-fix prefix defect, fixed in /repo); counter cleared by successful callback / logout callback / front-channel logout; rate limit: k-th login within the window refused iff k >= logins, counter lapses not before the window and < 1 s after it (c17_subsecond_window_refuted documents the pre-fix Max-Age truncation, fixed in /repo), never limited without a session or when disabled. 3 253 cases: counter values through the real router, browser-followed chains over 8 ingress set-ups, rate-limit scripts at window -1 ns / window / +1 ns on the fake clock.",
             "Trusts: Coq kernel; jar model as C14. The composition of the counter machine with the jar-level browser is covered by correspondence and examples, not by a single end-to-end theorem. Hand-edited negative counters are outside 'a browser that keeps cookies'.",
             "5/C17"),
+    "C15": ("Coq theorems (route table never reaches the catch-all under an owned routing key; fetch-metadata gate; no-cache; html/template escapers on all byte strings) + router sweep, rendered-page differential, token scan",
+            "c15_*: for every configuration, method and path whose routing key lies under <prefix>/oauth2 the route is never the catch-all (exact iff characterisation; the canonical spelling of an owned path is never proxied; c15_escaped_path_refuted: percent-escaped spellings are - known finding); interactive endpoints answer 401 to recognisable non-navigations and their handlers never run; every response generated inside the mount for a known method is no-cache; html_escape output has no < > \" ' NUL and every & starts an entity; the href value never has a script-capable scheme. The route table is pinned against chi.Walk of the real router for 38 configurations; 1.18 M routing cases, 47 k rendered error-page regions compared byte for byte, 19 k end-to-end responses scanned for every minted token.",
+            "Trusts: Coq kernel; chi's radix tree abstracted to a flat table tied by the sweep; html/template escapers and net/url setPath transliterated and tied by differential. Part 3 (no token in owned responses) is decided dynamically (scan), not by a theorem. Known findings: escaped owned paths, 405 for unknown methods and the SSO proxy's 502 lack no-cache headers; legacy-cookie flag.",
+            "5/C15"),
     "C16": ("Coq theorems (rs/cors origin test on all byte strings; router CORS placement; SSO-proxy threads of the machine are read-only) + differential on the real router / rs/cors + shared-store histories",
             "c16_*: for every domain without '*' and ':' and every browser-producible origin, acceptance implies https, no port, host = domain or sub-domain (exact iff characterisation, completeness, refutations showing each hypothesis is needed); credentials only with an allowed origin, preflight only for registered methods, CORS only on the SSO endpoints; every KSsoProxy thread of the machine stays in read/done phases and leaves the world unchanged in every run; the server's Wildcard never proxies. 240 k origin / method / path cases through the real router with real rs/cors agree with the model; proxy + server histories over one wrapped Redis show only GETs from the proxy.",
             "Trusts: Coq kernel; ASCII lower-casing (non-ASCII case folding of Go excluded), rs/cors modelled for the options wonderwall uses. Domains containing '*' or ':' are outside the property's quantifier (they are accepted by config validation: observation recorded in DESIGN.md).",
